@@ -76,6 +76,13 @@ def verus_engine(prop, tier, scratch):
                 affected.update(props)
         if prop in affected or prop == 'C01':
             raise Undecided('function(s) %s left the verifiable subset on this tree (%s)' % (sorted(skip), '; '.join('%s: %s' % kv for kv in sorted(isolated.items()))[:400]))
+    lost = info.get('lost_fns') or {}
+    if lost:
+        affected = set()
+        for name, d in lost.items():
+            affected.update(d.get('props') or [])
+        if prop in affected or prop == 'C01':
+            raise Undecided('contract anchor lost on this tree: %s' % '; '.join('%s (%s)' % (n, d['reason']) for n, d in sorted(lost.items()))[:500])
     fntab = cl.fn_table(text)
     led = cl.ledger_from(vj, 'evx_unit')
     # ---- obligations of this property: every contracted fn tagged with it (C01: every verified exec fn)
@@ -146,7 +153,8 @@ def verus_engine(prop, tier, scratch):
         if c['fn'] in expected or c['fn'] is None:
             raise Undecided('%s in %s: %s' % (c['kind'], c['fn'], c['msg'][:200]))
     return {'unit': unit, 'text': text, 'info': info, 'fntab': fntab, 'run': r, 'ledger': led, 'obligations': obligations,
-            'failures': failures, 'trusted': cl.trusted_scan(text) + ['AUTO-ISOLATED (contract assumed, outside the verifiable subset on this tree): ' + n for n in sorted(skip)], 'cmd': r['cmd']}
+            'failures': failures, 'trusted': cl.trusted_scan(text) + ['AUTO-ISOLATED (contract assumed, outside the verifiable subset on this tree): ' + n for n in sorted(skip)]
+            + ['ANCHOR LOST (contract %s): %s' % ('dropped' if d.get('missing') else 'assumed', n) for n, d in sorted(lost.items())], 'cmd': r['cmd']}
 
 
 def canary(prop, scratch, names):
